@@ -448,6 +448,8 @@ func (x *Decimal) Float(z *big.Float) *big.Float {
 
 	switch x.form {
 	case zero:
+		// SetPrec(0) above does not clear an infinity left in a reused z
+		z.SetInt64(0)
 		z.SetPrec(p)
 		if x.neg != z.Signbit() {
 			z.Neg(z)
